@@ -4,6 +4,7 @@ import (
 	"bytes"
 	"errors"
 	"fmt"
+	"strings"
 	"testing"
 
 	"github.com/blinklabs-io/gouroboros/ledger"
@@ -117,11 +118,48 @@ type c34Verdict struct {
 // c34Eval runs the library decoder and, when it accepts with validation on,
 // recomputes the commitment of the accepted bytes independently.
 func c34Eval(typ uint, buf []byte) (c34Verdict, error) {
+	return c34EvalCfg(typ, buf, common.VerifyConfig{})
+}
+
+// the public verification knobs that leave the body binding on: the three
+// VerifyBlock-only skips (documented not to affect body-hash validation) and the
+// stricter Byron ssc hash comparison. SkipBodyHashValidation switches the
+// property off and stays outside.
+type cfgCombo struct {
+	Name string
+	Cfg  common.VerifyConfig
+}
+
+func cfgCombos() []cfgCombo {
+	var out []cfgCombo
+	for m := 0; m < 16; m++ {
+		c := common.VerifyConfig{
+			SkipTransactionValidation:         m&1 != 0,
+			SkipStakePoolValidation:           m&2 != 0,
+			SkipBlockLimitsValidation:         m&4 != 0,
+			EnableByronSscProofHashValidation: m&8 != 0,
+		}
+		name := ""
+		for i, n := range []string{"SkipTx", "SkipPool", "SkipLimits", "ByronSscHash"} {
+			if m&(1<<i) != 0 {
+				name += "+" + n
+			}
+		}
+		if name == "" {
+			name = "default"
+		}
+		out = append(out, cfgCombo{strings.TrimPrefix(name, "+"), c})
+	}
+	return out
+}
+
+// c34EvalCfg: cfg must have SkipBodyHashValidation == false.
+func c34EvalCfg(typ uint, buf []byte, cfg common.VerifyConfig) (c34Verdict, error) {
 	var v c34Verdict
 	// every call gets the bytes in the process-wide input buffer, which is
 	// overwritten as soon as the call has returned (see offsets_purity.go)
 	in := viaScratch(buf)
-	_, err := ledger.NewBlockFromCbor(typ, in)
+	_, err := ledger.NewBlockFromCbor(typ, in, cfg)
 	clobber(in)
 	v.Structural = err == nil // accepted with validation => decodes without it
 	if err != nil {
@@ -498,12 +536,17 @@ func TestC34(t *testing.T) {
 		bases = append(bases, b)
 	}
 
+	// the configuration mutants are decoded under (default outside the rapid
+	// phase; each rapid case draws one of the 16 binding-preserving combinations)
+	combos := cfgCombos()
+	cfgNow := combos[0]
 	judge := func(fail func(key, what string, cs any) bool, b *c34Base, m mutation) {
 		if bytes.Equal(m.Bytes, b.Bytes) {
 			rec.Class("mutation_was_identity")
 			return
 		}
-		v, err := c34Eval(b.Type, m.Bytes)
+		m.Desc += " [config " + cfgNow.Name + "]"
+		v, err := c34EvalCfg(b.Type, m.Bytes, cfgNow.Cfg)
 		rec.Eval()
 		if err != nil {
 			fail("C34:harness:"+err.Error(), err.Error(), map[string]any{"base": b.Name, "mutation": m.Desc, "block_hex": evi.Hex(m.Bytes)})
@@ -725,6 +768,99 @@ func TestC34(t *testing.T) {
 		rec.SetExtra("n_special_size_flips", nSpecial)
 	}
 
+	// ---- every combination of the verification knobs that keep the binding on ------------
+	// For each real block and each of the 16 configurations: the genuine block is
+	// accepted; for every hashed component (first region of each name) and the
+	// header's commitment, a head-form change of its first container, a flip of
+	// its last byte and a flip in its middle must be rejected (accepted => bound).
+	// The ssc payload is mutated too but only counted (see below).
+	{
+		viol := func(key, what string, cs any) bool { return rec.Violation(key, what, cs) }
+		nCfg := 0
+		for _, b := range bases {
+			if b.Type == fixtures.TypeByronEbb && !rec.Thorough() {
+				continue
+			}
+			lay := layoutOf(b.Type)
+			// one region per name
+			var regs []region
+			seen := map[string]bool{}
+			for _, r := range b.Regs {
+				if (r.Committed || r.Name == "header-commitment" || r.Name == "ssc") && !seen[r.Name] && r.E > r.S {
+					seen[r.Name] = true
+					regs = append(regs, r)
+				}
+			}
+			var muts []mutation
+			nodes := b.Tree.Nodes()
+			for _, r := range regs {
+				for i, n := range nodes {
+					if n.Start >= r.S && n.Start < r.E && (n.Kind == xcbor.Array || n.Kind == xcbor.Map || n.Kind == xcbor.Bytes) && regionAt(b.Regs, n.Start).Name == r.Name && canApply(n, xcbor.FormW2) {
+						c := b.Tree.Clone()
+						applyForm(c.Nodes()[i], xcbor.FormW2, 0)
+						muts = append(muts, mutation{"restyle", r.Name, fmt.Sprintf("%s node #%d -> w2", n.Kind, i), c.Encode()})
+						break
+					}
+				}
+				for _, p := range []int{r.E - 1, (r.S + r.E) / 2} {
+					if regionAt(b.Regs, p).Name != r.Name {
+						continue
+					}
+					mb := append([]byte(nil), b.Bytes...)
+					mb[p] ^= 0x01
+					muts = append(muts, mutation{"byte-flip", r.Name, fmt.Sprintf("byte %d ^= 0x01", p), mb})
+				}
+			}
+			for _, cc := range cfgCombos() {
+				gv, err := c34EvalCfg(b.Type, b.Bytes, cc.Cfg)
+				rec.Eval()
+				nCfg++
+				if err != nil {
+					continue
+				}
+				if !gv.Accepted {
+					if cc.Cfg.EnableByronSscProofHashValidation {
+						rec.Class("real_block_rejected_under_opt_in_ssc_hash_validation")
+					} else {
+						rec.Violation(fmt.Sprintf("C34:%s:type%d:config[%s]:real-block-rejected", lay, b.Type, cc.Name),
+							fmt.Sprintf("real block %s is rejected under configuration %s: %s", b.Name, cc.Name, gv.Err), map[string]any{"block": b.Name, "config": cc.Name})
+					}
+					continue
+				}
+				rec.Class("real_block_accepted_under_" + cc.Name)
+				for _, m := range muts {
+					v, err := c34EvalCfg(b.Type, m.Bytes, cc.Cfg)
+					rec.Eval()
+					nCfg++
+					if err != nil || !v.Accepted {
+						continue
+					}
+					unbound := !v.Bound
+					why := v.Why
+					if m.Region == "ssc" {
+						// outside the claim without the opt-in; with it the library hashes a
+						// normalised form of the payload (a head-form change inside it is
+						// accepted on the unchanged tree, like Byron list framing), for
+						// which the harness has no reference: counted, not judged
+						if cc.Cfg.EnableByronSscProofHashValidation {
+							rec.Class("ssc_mutation_accepted_with_opt_in(" + m.Family + ", not judged)")
+						} else {
+							rec.Class("ssc_mutation_accepted_without_opt_in(outside the claim)")
+						}
+					}
+					if unbound {
+						viol(fmt.Sprintf("C34:%s:type%d:config[%s]:%s:%s", lay, b.Type, cc.Name, m.Family, m.Region),
+							fmt.Sprintf("%s block (type %d, base %s) decodes under configuration %s although its body is not what the header commits to: %s; mutation: %s in region %s: %s", lay, b.Type, b.Name, cc.Name, why, m.Family, m.Region, m.Desc),
+							map[string]any{"base": b.Name, "type": b.Type, "config": cc.Name, "family": m.Family, "region": m.Region, "mutation": m.Desc, "block_hex": evi.Hex(m.Bytes)})
+					} else {
+						rec.Class("config_sweep_accepted_and_bound_" + m.Region)
+					}
+				}
+			}
+		}
+		rec.SetExtra("n_config_sweep_evaluations", nCfg)
+	}
+
 	// ---- header of one real block on the body of another real block of the same type ----
 	for _, a := range bases {
 		for _, b := range bases {
@@ -800,6 +936,11 @@ func TestC34(t *testing.T) {
 		lay := layoutOf(b.Type)
 		rec.Class("layout_" + lay)
 		fail := func(key, what string, cs any) bool { return rec.Fail(rt, key, what, cs) }
+		cfgNow = combos[rapid.IntRange(0, len(combos)-1).Draw(rt, "config")]
+		defer func() { cfgNow = combos[0] }()
+		if cfgNow.Cfg.EnableByronSscProofHashValidation {
+			rec.Class("rapid_case_with_byron_ssc_hash_validation")
+		}
 		// history: the genuine base is decoded again after its mutant (G T G); it
 		// was accepted before, so it must be accepted again
 		again := func() {
